@@ -85,7 +85,7 @@ int main() {
 
 def build(pool=None, tag='core', shards=16, force=False):
     pool = pool if pool is not None else nopgen.core_pool()
-    srcs = [os.path.join(VERIF, 'harness', 'glue.h'), os.path.join(VERIF, 'harness', 'prim.cpp'), os.path.join(VERIF, 'harness', 'objs.cpp'), os.path.join(VERIF, 'harness', 'thr.cpp'), os.path.join(VERIF, 'tools', 'nopgen.py'), os.path.join(VERIF, 'tools', 'rpcgen.py'),
+    srcs = [os.path.join(VERIF, 'harness', 'glue.h'), os.path.join(VERIF, 'harness', 'prim.cpp'), os.path.join(VERIF, 'harness', 'objs.cpp'), os.path.join(VERIF, 'harness', 'thr.cpp'), os.path.join(VERIF, 'harness', 'cx.cpp'), os.path.join(VERIF, 'tools', 'nopgen.py'), os.path.join(VERIF, 'tools', 'rpcgen.py'),
             os.path.abspath(__file__), os.path.join(VERIF, 'tools', 'common.py')]
     if COVERAGE:
         tag = tag + '-cov'
@@ -160,6 +160,18 @@ def build(pool=None, tag='core', shards=16, force=False):
         r = run([CXX] + CXXFLAGS + ['-I' + out, prim_src, '-o', os.path.join(out, 'prim')], timeout=1200)
         return prim_src, r
 
+    def cc_cx(_):
+        # compile-time serialization: a build failure is what the C17 check reports (with the values of cx.cpp), not a
+        # failure of the whole harness
+        src = os.path.join(VERIF, 'harness', 'cx.cpp')
+        r = run([CXX] + CXXFLAGS + ['-I' + out, src, '-o', os.path.join(out, 'cx')], timeout=1200)
+        if r.returncode != 0:
+            with open(os.path.join(out, 'cx.err'), 'w') as f:
+                f.write(r.stderr[-8000:])
+            class Ok: returncode = 0; stderr = ''
+            return src, Ok()
+        return src, r
+
     import rpcgen
     ifs, sets = rpcgen.interfaces(pool)
     with open(os.path.join(out, 'rpc.txt'), 'w') as f:
@@ -191,12 +203,14 @@ def build(pool=None, tag='core', shards=16, force=False):
         return src, r
     with cf.ThreadPoolExecutor(NCPU) as ex:
         fut = ex.submit(cc_prim, None)
+        fut6 = ex.submit(cc_cx, None)
         fut2 = ex.submit(cc_objs, None)
         fut3 = ex.submit(cc_rpc, 'rpc')
         fut5 = ex.submit(cc_thr, None)
         fut4 = ex.submit(cc_rpc, 'rpcp')
         res = list(ex.map(cc, files))
         res.append(fut.result())
+        res.append(fut6.result())
         res.append(fut2.result())
         res.append(fut3.result())
         res.append(fut4.result())
